@@ -10,13 +10,16 @@ from vlib import common as c, drv
 from checks import callflow as cf, filters
 
 SEP = b"|~|"
-FIELDS = [("uid", b"%{uid}"), ("euid", b"%{euid}"), ("gid", b"%{gid}"), ("egid", b"%{egid}"), ("username", b"%{username}"), ("eusername", b"%{eusername}"),
+FIELDS = [("login", b"%{login}"), ("uid", b"%{uid}"), ("euid", b"%{euid}"), ("gid", b"%{gid}"), ("egid", b"%{egid}"), ("username", b"%{username}"), ("eusername", b"%{eusername}"),
           ("group", b"%{group}"), ("egroup", b"%{egroup}"), ("pid", b"%{pid}"), ("ppid", b"%{ppid}"), ("sid", b"%{sid}"), ("tid_kernel", b"%{tid_kernel}"),
           ("tid", b"%{tid}"), ("cwd", b"%{cwd}"), ("hostname", b"%{hostname}"), ("tty", b"%{tty}"), ("tty_uid", b"%{tty_uid}"), ("tty_username", b"%{tty_username}"),
-          ("login", b"%{login}"), ("env", b"%{env:XVAR}"), ("envmissing", b"%{env:NOSUCHVAR}"), ("cgroup0", b"%{cgroup:0}"), ("cgroupnone", b"%{cgroup:nosuchcontroller}"),
+          ("env", b"%{env:XVAR}"), ("envmissing", b"%{env:NOSUCHVAR}"), ("cgroup0", b"%{cgroup:0}"), ("cgroupnone", b"%{cgroup:nosuchcontroller}"),
           ("rpname", b"%{rpname}"), ("timestamp", b"%{timestamp}"), ("ms", b"%{timestamp_ms}"), ("us", b"%{timestamp_us}"), ("datetime", b"%{datetime}"),
           ("dt_date", b"%{datetime:%Y-%m-%d %H}"), ("dt_epoch", b"%{datetime:%s}"), ("dt_zone", b"%{datetime:%z}"), ("version", b"%{snoopy_version}"), ("env_all", b"%{env_all}")]
 FORKNAME = {"plain": b"worker", "paren": b"w(3) x)", "space": b"a b"}
+HOSTS = {"h1": b"h", "h63": b"h63-" + b"a" * 59, "h64": b"h64-" + b"b" * 60}
+LONGCOMP, LONGCOUNT = b"L" * 250, 20          # 20 x 251 bytes below the work directory: longer than PATH_MAX
+DEFAULT_CWD_RE = re.compile(rb" cwd:(.*)\]: ", re.S)
 TZS = ["UTC", "EST5EDT,M3.2.0,M11.1.0", "<+0330>-3:30"]
 
 
@@ -36,20 +39,24 @@ def gname_of(gid):
 
 def build_script(ctx, cases):
     s = drv.Script()
-    s.add("sinkfile", "file", drv.hx(ctx.log)).add("ptypair")
-    s.path(ctx.helper).argv([b"prog", b"x"]).envp([b"A=1"]).add("ret", -1, 2).add("snap", 0)
+    s.add("sinkfile", "file", drv.hx(ctx.log)).add("sinkdevlog", "devlog", drv.hx(ctx.devlog)).add("chmodpath", drv.hx(ctx.devlog), "666").add("ptypair")
+    s.path(ctx.helper).argv([b"prog", b"x"]).envp([b"A=1"]).add("ret", -1, 2).add("snap", 0).add("dirtystack", 200000)
     fmt = SEP.join(k.encode() + b"=" + v for k, v in FIELDS)
     ini = b'[snoopy]\nmessage_format = "' + fmt + b'"\noutput = file:' + ctx.log + b"\n"
     deep = os.path.join(ctx.w, "deep", *["d%02d-%s" % (i, "x" * 40) for i in range(18)])
     os.makedirs(os.path.join(deep, "etc"), exist_ok=True)
     open(os.path.join(deep, "etc", "snoopy.ini"), "wb").write(ini)
     for label, steps, topname, tz in cases:
+        if any(st["a"] == "cwd" and st["to"] == "toolong" for st in steps):
+            os.makedirs(os.path.join(ctx.w, "long-" + label), exist_ok=True)
+            os.chmod(os.path.join(ctx.w, "long-" + label), 0o777)
         rdir = os.path.join(ctx.w, "ren-" + label)
         os.makedirs(os.path.join(rdir, "etc"), exist_ok=True)
         os.chmod(rdir, 0o777)
         open(os.path.join(rdir, "etc", "snoopy.ini"), "wb").write(ini)      # the library finds its config relative to the cwd (see vlib.common.build)
         s.add("emit", "item:" + label).add("fork").add("name", drv.hx(topname)).add("ini", drv.hx(ini))
         s.add("envset", drv.hx(b"TZ"), drv.hx(tz.encode())).add("envset", drv.hx(b"XVAR"), drv.hx(b"x value = with equals"))
+        s.add("envset", drv.hx(b"PWD"), drv.hx(b"/usr/share")).add("envset", drv.hx(b"HOSTNAME"), drv.hx(b"stale-host"))   # stale hints a data source must not trust
         nforks, ncall = 0, 0
         for st in steps:
             a = st["a"]
@@ -66,20 +73,33 @@ def build_script(ctx, cases):
                     s.add("chdir", drv.hx(ctx.w.encode()))
                 elif st["to"] == "deep":
                     s.add("chdir", drv.hx(deep.encode()))
-                else:
+                elif st["to"] == "renamed":
                     s.add("chdir", drv.hx(rdir.encode())).add("rename", drv.hx(rdir.encode()), drv.hx((rdir + "-moved").encode()))
+                elif st["to"] == "deleted":                 # no file can live in a removed directory: the call runs on the built-in defaults (devlog sink)
+                    gone = os.path.join(ctx.w, "gone-" + label)
+                    s.add("mkdirp", drv.hx(gone.encode())).add("chdir", drv.hx(gone.encode())).add("rmdir", drv.hx(gone.encode()))
+                else:
+                    s.add("chdirdeep", drv.hx(os.path.join(ctx.w, "long-" + label).encode()), LONGCOUNT, drv.hx(LONGCOMP))
+                    s.add("mkdirp", drv.hx(b"etc")).add("writefile", drv.hx(b"etc/snoopy.ini"), drv.hx(ini))
+            elif a == "host":
+                s.add("sethostname", drv.hx(HOSTS[st["to"]]))
             elif a == "env":
                 to = st["to"]
                 if to == "empty":
                     s.add("envclear").add("envset", drv.hx(b"TZ"), drv.hx(tz.encode()))     # libc reads TZ once per process: keep it stable
+                    s.add("envset", drv.hx(b"REC_DEVLOG"), drv.hx(ctx.devlog))
                 elif to == "sudo":
                     s.add("envset", drv.hx(b"SUDO_USER"), drv.hx(b"sudoer")).add("envset", drv.hx(b"LOGNAME"), drv.hx(b"lognamer"))
                 elif to == "logname":
                     s.add("envunset", drv.hx(b"SUDO_USER")).add("envset", drv.hx(b"LOGNAME"), drv.hx(b"lognamer"))
+                elif to == "sudo254":
+                    s.add("envset", drv.hx(b"SUDO_USER"), drv.hx(b"s" * 254)).add("envset", drv.hx(b"LOGNAME"), drv.hx(b"lognamer"))
+                elif to == "logname300":
+                    s.add("envunset", drv.hx(b"SUDO_USER")).add("envset", drv.hx(b"LOGNAME"), drv.hx(b"l" * 300))
                 elif to == "huge":
                     s.add("envpat", drv.hx(b"HUGE"), 5000, 5)
                 elif to == "noeq":
-                    s.add("envraw", drv.hx(b"NOEQUALSSIGN"), drv.hx(b"XVAR=second=value"), drv.hx(b"TZ=" + tz.encode()))
+                    s.add("envraw", drv.hx(b"NOEQUALSSIGN"), drv.hx(b"XVAR=second=value"), drv.hx(b"TZ=" + tz.encode()), drv.hx(b"REC_DEVLOG=" + ctx.devlog))
                 else:
                     s.add("envunset", drv.hx(b"SUDO_USER")).add("envunset", drv.hx(b"LOGNAME")).add("envunset", drv.hx(b"HUGE"))
             elif a == "fork":
@@ -100,7 +120,7 @@ def run_cases(b, cases, workdir):
     batches = [cases[i::workers] for i in range(workers)]
     batches = [x for x in batches if x]
     ctxs = [cf.Ctx(b, os.path.join(workdir, "w%d" % i)) for i in range(len(batches))]
-    can_ns = subprocess.run(["unshare", "-p", "-f", "--mount-proc", "true"], capture_output=True).returncode == 0
+    can_ns = subprocess.run(["unshare", "-u", "-p", "-f", "--mount-proc", "true"], capture_output=True).returncode == 0
 
     def one(i):
         ctx = ctxs[i]
@@ -115,36 +135,44 @@ def run_cases(b, cases, workdir):
         open(sp, "w").write(s.text())
         if os.path.exists(op):
             os.unlink(op)
-        inner = ["env", "LD_PRELOAD=" + b["lib"] + ":" + os.path.join(c.BUILD, "librec.so"), "XDRV_INI=" + os.path.join(ctx.etc, "snoopy.ini"),
-                 os.path.join(c.BUILD, "xdrv"), sp, op]
-        cmd = (["unshare", "-p", "-f", "--mount-proc"] if can_ns else []) + inner
+        inner = ["env", "LD_PRELOAD=" + cf.preload(b)] + (["%s=%s" % kv for kv in cf.SAN_ENV.items()] if b["variant"].startswith("asan") else []) + [
+                 "XDRV_INI=" + os.path.join(ctx.etc, "snoopy.ini"), os.path.join(c.BUILD, "xdrv"), sp, op]
+        cmd = (["unshare", "-u", "-p", "-f", "--mount-proc"] if can_ns else []) + inner
         try:
             subprocess.run(cmd, env={"PATH": "/usr/sbin:/usr/bin:/sbin:/bin"}, capture_output=True, timeout=1500, cwd=ctx.w, stdin=subprocess.DEVNULL)
         except subprocess.TimeoutExpired:
             pass
         res = {}
+        item = None
         for line in (open(op, errors="replace") if os.path.exists(op) else []):
             try:
                 e = json.loads(line)
             except ValueError:
                 continue
+            if e["ev"] == "mark" and str(e.get("label", "")).startswith("item:"):
+                item = e["label"][5:]
+            elif e["ev"] == "child" and e.get("signal"):
+                res.setdefault("crashes", {}).setdefault(item, e["signal"])
             if e["ev"] == "procstate":
                 res.setdefault(e["label"], {})["state"] = e
             elif e["ev"] == "at" and e.get("label"):
                 res.setdefault(e["label"], {})["record"] = bytes.fromhex(e["sinks"].get("file") or "")
+                dl = e["sinks"].get("devlog") or []
+                res[e["label"]]["devlog"] = b"".join(bytes.fromhex(x) for x in (dl if isinstance(dl, list) else [dl]))
             elif e["ev"] == "error":
                 res.setdefault("errors", []).append(e["what"])
         return res
 
     with ThreadPoolExecutor(max_workers=len(batches)) as ex:
         outs = list(ex.map(one, range(len(batches))))
-    obs = {}
+    obs = {"crashes": {}}
     for o in outs:
-        obs.update({k: v for k, v in o.items() if k != "errors"})
+        obs.update({k: v for k, v in o.items() if k not in ("errors", "crashes")})
+        obs["crashes"].update(o.get("crashes", {}))
     return obs, can_ns
 
 
-def expected_fields(st, topname, forknames, tz, version, ns):
+def expected_fields(st, topname, forknames, tz, version, ns, longpath=None):
     """oracle values computed from the harness's independent reading of the process state"""
     H = lambda k: bytes.fromhex(st[k])
     envs = [bytes.fromhex(x) for x in st["environ"]]
@@ -164,7 +192,13 @@ def expected_fields(st, topname, forknames, tz, version, ns):
     exp["pid"], exp["ppid"], exp["sid"], exp["tid_kernel"] = [b"%d" % st[k] for k in ("pid", "ppid", "sid", "ktid")]
     exp["tid"] = st["pthread_self"].encode()
     cwd = H("cwd")
-    exp["cwd"] = cwd if not cwd.endswith(b" (deleted)") else None
+    fail = re.escape(b"[ERROR: Data source 'cwd' failed")
+    if st.get("getcwd_errno", 0) == 0 and not cwd.endswith(b" (deleted)"):
+        exp["cwd"] = cwd
+    elif cwd.endswith(b" (deleted)"):        # the directory is gone: an honest failure, or the name it had
+        exp["cwd"] = re.compile(rb"^(" + fail + rb".*|" + re.escape(cwd) + rb"|" + re.escape(cwd[:-10]) + rb")$", re.S)
+    else:                                     # longer than the kernel can report: an honest failure, or the path the harness walked
+        exp["cwd"] = re.compile(rb"^(" + fail + rb".*)$", re.S)          # run() adds the path the harness walked
     exp["hostname"] = H("hostname")
     if st["isatty"]:
         exp["tty"] = H("stdin")
@@ -176,7 +210,8 @@ def expected_fields(st, topname, forknames, tz, version, ns):
     if st["login_rc"] == 0:
         exp["login"] = H("login")
     else:
-        exp["login"] = envd.get(b"SUDO_USER") or envd.get(b"LOGNAME") or b"(unknown)"
+        v = envd.get(b"SUDO_USER") or envd.get(b"LOGNAME") or b"(unknown)"
+        exp["login"] = v if len(v) <= 254 else {v, v[:254]}          # 254 = the data source's documented maximum
     exp["env"] = envd.get(b"XVAR", b"(undefined)")
     exp["envmissing"] = b"(undefined)"
     cg = H("cgroup").split(b"\n")
@@ -247,11 +282,20 @@ def run(tier, seed, replay=None):
         def prio(h):
             acts = [x["a"] for x in h["steps"]]
             return (any(x["a"] == "ids" and len({x["r"], x["e"], x["s"]}) == 3 for x in h["steps"]), acts.count("call") >= 2, "fork" in acts)
+        def special(h):
+            return any((x["a"] == "host") or (x["a"] == "cwd" and x["to"] in ("deleted", "toolong")) or (x["a"] == "env" and x["to"] in ("sudo254", "logname300")) for x in h["steps"])
+        spec_ = [h for h in hs if special(h)]
+        hs = [h for h in hs if not special(h)]
+        spec_.sort(key=lambda h: len(h["steps"]))
+        short = [h for h in spec_ if len(h["steps"]) <= 2]
+        longer = [h for h in spec_ if len(h["steps"]) > 2]
+        rnd.shuffle(longer)
+        spec_ = short + longer[:500]
         first = [h for h in hs if prio(h)[1] or prio(h)[2]]
         second = [h for h in hs if prio(h)[0] and h not in first]
         rest = [h for h in hs if h not in first and h not in second]
         rnd.shuffle(first); rnd.shuffle(second); rnd.shuffle(rest)
-        hs = first[:900] + second[:900] + rest[:700]
+        hs = spec_ + first[:800] + second[:800] + rest[:600]
     reports = hs[0]["reports"]
     cases = []
     for i, h in enumerate(hs):
@@ -261,33 +305,70 @@ def run(tier, seed, replay=None):
     obs, ns = run_cases(b, cases, b["root"] + "/run")
     if not ns:
         rep.assumptions.append("pid namespaces unavailable: %{rpname} is not compared")
-    total, nontriv = 0, 0
-    for label, steps, top, tz in cases:
-        ncall = sum(1 for s in steps if s["a"] == "call")
-        forks = []
-        k = 0
-        for s in steps:
-            if s["a"] == "fork":
-                forks.append(FORKNAME[s["name"]])
-            elif s["a"] == "call":
-                k += 1
-                lab = "%s#%d" % (label, k)
-                o = obs.get(lab)
-                total += 1
-                if not o or "state" not in o or "record" not in o:
-                    rep.assumptions.append("behaviour %s produced no observation (setup failed?)" % lab)
-                    continue
-                st = o["state"]
-                if len({st["ruid"], st["euid"], st["suid"]}) == 3 or forks:
-                    nontriv += 1
-                exp = expected_fields(st, top, list(forks), tz, version, ns)
-                for field, what in compare(o["record"], exp):
-                    dsname = {"envmissing": "env", "cgroup0": "cgroup", "cgroupnone": "cgroup", "ms": "timestamp_ms", "us": "timestamp_us", "dt_date": "datetime",
-                              "dt_epoch": "datetime", "dt_zone": "datetime", "version": "snoopy_version"}.get(field, field)
-                    cls = "ids-distinct" if len({st["ruid"], st["euid"], st["suid"]}) == 3 else "after-fork" if forks else "plain"
-                    rep.violation("%s:%s" % (dsname, cls), "after %s: %s (contract: %%{%s} reports %s)" % (
-                        [x["a"] + (":" + str(x.get("to", x.get("name", ""))) if x["a"] in ("stdin", "cwd", "env", "fork") else "") for x in steps][:6], what, dsname, reports.get(dsname, "?")),
-                        dict(steps=steps, field=field, independent_reading={k2: v for k2, v in st.items() if k2 not in ("environ", "cgroup")}))
+    def judge(cases, obs, passname):
+        total, nontriv = 0, 0
+        for label, steps, top, tz in cases:
+            ncall = sum(1 for s in steps if s["a"] == "call")
+            forks = []
+            k = 0
+            cur_cwd = "work"
+            for s in steps:
+                if s["a"] == "cwd":
+                    cur_cwd = s["to"]
+                if s["a"] == "fork":
+                    forks.append(FORKNAME[s["name"]])
+                elif s["a"] == "call":
+                    k += 1
+                    lab = "%s#%d" % (label, k)
+                    o = obs.get(lab)
+                    total += 1
+                    if not o or "state" not in o or "record" not in o:
+                        rep.assumptions.append("behaviour %s produced no observation (setup failed?)" % lab)
+                        continue
+                    st = o["state"]
+                    if len({st["ruid"], st["euid"], st["suid"]}) == 3 or forks:
+                        nontriv += 1
+                    exp = expected_fields(st, top, list(forks), tz, version, ns, cur_cwd == "toolong")
+                    if cur_cwd == "toolong":
+                        fail = re.escape(b"[ERROR: Data source 'cwd' failed")
+                        exp["cwd"] = re.compile(rb"^(" + fail + rb".*|/.*/long-" + label.encode() + (b"/" + LONGCOMP) * LONGCOUNT + rb")$", re.S)
+                    if cur_cwd == "deleted":
+                        # the call ran on the built-in defaults; the default message format carries %{cwd}, read from the syslog datagram
+                        m = DEFAULT_CWD_RE.search(o.get("devlog") or b"")
+                        if not m:
+                            rep.assumptions.append("behaviour %s (deleted working directory) logged nothing to the default sink: %s" % (lab, [x["a"] + ":" + str(x.get("to", x.get("e", ""))) for x in steps]))
+                            continue
+                        found = [("cwd", "%%{cwd} printed %r, the process state says %r" % (m.group(1)[:100], exp["cwd"].pattern[:100]))] if not exp["cwd"].match(m.group(1)) else []
+                    else:
+                        found = compare(o["record"], exp)
+                    for field, what in found:
+                        dsname = {"envmissing": "env", "cgroup0": "cgroup", "cgroupnone": "cgroup", "ms": "timestamp_ms", "us": "timestamp_us", "dt_date": "datetime",
+                                  "dt_epoch": "datetime", "dt_zone": "datetime", "version": "snoopy_version"}.get(field, field)
+                        cls = "ids-distinct" if len({st["ruid"], st["euid"], st["suid"]}) == 3 else "after-fork" if forks else "plain"
+                        if field == "cwd" and cur_cwd in ("deleted", "toolong"):
+                            cls = "cwd-" + cur_cwd
+                        if field == "hostname":
+                            cls = "len%d" % len(bytes.fromhex(st["hostname"]))
+                        if field == "login" and st["login_rc"] != 0:
+                            cls = "from-environment"
+                        rep.violation("%s:%s" % (dsname, cls), "after %s: %s (contract: %%{%s} reports %s)" % (
+                            [x["a"] + (":" + str(x.get("to", x.get("name", ""))) if x["a"] in ("stdin", "cwd", "env", "fork", "host") else "") for x in steps][:6], what, dsname, reports.get(dsname, "?")),
+                            dict(steps=steps, field=field, independent_reading={k2: v for k2, v in st.items() if k2 not in ("environ", "cgroup")}))
+            if label in obs["crashes"]:
+                rep.violation("crash:%s:signal%d" % (passname, obs["crashes"][label]), "after %s the process died with signal %d inside the call (%s build)" % (
+                    [x["a"] + ":" + str(x.get("to", "")) for x in steps][:6], obs["crashes"][label], passname), dict(steps=steps))
+        return total, nontriv
+
+    total, nontriv = judge(cases, obs, "production")
+    # the same contract on an ASan/UBSan build for the boundary states (long login names, 64-byte host name, unreportable working directories)
+    ba = c.build("asan", tag="C12a", cwd_etc=True)
+    sub = [x for x in cases if any((s["a"] == "host") or (s["a"] == "cwd" and s["to"] in ("deleted", "toolong")) or (s["a"] == "env" and s["to"] in ("sudo254", "logname300", "huge", "noeq", "empty")) for s in x[1])]
+    sub = sorted(sub, key=lambda x: len(x[1]))[: (160 if tier == "quick" else 1500)]
+    sub = [("a" + lab, st, top, tz) for (lab, st, top, tz) in sub]
+    obs2, _ = run_cases(ba, sub, ba["root"] + "/run")
+    t2, n2 = judge(sub, obs2, "asan")
+    total += t2
+    nontriv += n2
     rep.cov["traces_validated_against_impl"] = total
     rep.cov["evaluations"] = total * len(FIELDS)
     rep.cov["distinct_nontrivial"] = nontriv
